@@ -645,6 +645,10 @@ def main(run, replay=None):
         if "res_vs_lit" in orc:
             stats["oracle_checked"] += 1
         kind = failure_kind(r)
+        if kind == "wrong-meaning" and c_rl == 0:
+            # the kernel PROVED result ~ literal (tequiv is sound): the numeric verdict is an artefact of evaluation
+            stats["oracle_overruled_by_proof"] = stats.get("oracle_overruled_by_proof", 0) + 1
+            kind = None
         if not kind and c_rl == 1 and not g_opaque({"k": "op", "name": c["op"], "a": r["ins"]}):
             # no opaque term: the checker's normal forms differ, i.e. the two meanings are different rational
             # functions of the jet variables; the low-degree polynomials of the oracle may hide it: retry
